@@ -1,5 +1,5 @@
 //@unit themeorder
-//@props C06
+//@props C06 C14
 // U-themeorder: the one place where generated output depends on a hash set (src/themes.rs,
 // append_pattern_styles): the sequence of pattern definitions must be a FUNCTION OF THE SET of
 // classes in use. A HashSet's iteration order is arbitrary (the trusted contract of the collecting
@@ -111,26 +111,33 @@ fn sort_strings(v: &mut Vec<String>)
 // ------------------------------------------------------------------------------ the clock
 #[verifier::external_body] pub struct RestOfConfig { _p: u8 }
 #[verifier::external_body] pub struct RestOfContext { _p: u8 }
-impl RestOfContext {
-    /// the seed the context's random generator was last (re)initialised with (Pcg32::seed_from_u64: assumed deterministic)
-    pub uninterp spec fn rng_seed(&self) -> u64;
-}
+/// RefCell<Pcg32>: the random generator; `state` is what the next draws depend on, `fresh_rng(seed)` the state
+/// Pcg32::seed_from_u64(seed) starts in (assumed deterministic)
+#[verifier::external_body] pub struct RngCell { _p: u8 }
+impl RngCell { pub uninterp spec fn state(&self) -> int; }
+impl Clone for RngCell { #[verifier::external_body] fn clone(&self) -> (r: Self) ensures r == *self { unimplemented!() } }
+pub uninterp spec fn fresh_rng(seed: u64) -> int;
 pub struct TransformConfig { pub seed: u64, pub use_local_styles: bool, pub rest: RestOfConfig }
-pub struct TransformerContext { pub local_style_id: Option<String>, pub config: TransformConfig, pub rest: RestOfContext }
+pub struct TransformerContext { pub local_style_id: Option<String>, pub config: TransformConfig, pub rng: RngCell, pub rest: RestOfContext }
 /// R-abstract: the statements that read SystemTime::now() and format the randomised id
 #[verifier::external_body]
 fn clock_derived_id() -> String { unimplemented!() }
 impl TransformerContext {
     #[verifier::external_body]
     pub fn seed_rng(&mut self, seed: u64)
-        ensures final(self).local_style_id == old(self).local_style_id, final(self).config == old(self).config, final(self).rest.rng_seed() == seed
+        ensures final(self).local_style_id == old(self).local_style_id, final(self).config == old(self).config, final(self).rest == old(self).rest, final(self).rng.state() == fresh_rng(seed)
     { unimplemented!() }
 //@item src/context.rs :: impl TransformerContext :: fn set_config
 //@ cut[R-abstract] <<<            let now_seed = SystemTime::now()>>> .. <<<self.local_style_id = Some(format!("svgdx-{:08x}", rng.random::<u32>()))>>> => <<<            self.local_style_id = Some(clock_derived_id())>>>
 //@ ensures
 //@ - !config.use_local_styles ==> final(self).local_style_id is None     @@C06.clock.local_only
 //@ - final(self).config == config
-//@ - final(self).rest.rng_seed() == config.seed     @@C06.rng.seeded_from_config
+//@ - final(self).rng.state() == fresh_rng(config.seed)     @@C06.rng.seeded_from_config
+//@end
+//@item src/context.rs :: impl TransformerContext :: fn update_config
+//@ ensures
+//@ - final(self).config == config
+//@ - final(self).rng.state() == (if reseed { fresh_rng(config.seed) } else { old(self).rng.state() })     @@C14.config.update_keeps_random_sequence @@C06.rng.seeded_from_config
 //@end
 }
 } // verus!
